@@ -52,13 +52,19 @@ fn style_anns(style: &str) -> Vec<Ann> {
 }
 
 /// Annotations contributed by one element (colours first, then its own annotation).
-fn element_anns(dom: &Arena, n: usize, css: bool) -> Vec<Ann> {
-    let mut v = vec![];
-    if css {
-        if let Some(st) = dom.attr(n, "style") {
-            v.extend(style_anns(st));
-        }
-    }
+pub type ColourFn<'a> = &'a dyn Fn(&Arena, usize) -> Vec<Ann>;
+
+/// Colours from the element's own inline style (the only CSS C09 generates).
+pub fn inline_style_colours(dom: &Arena, n: usize) -> Vec<Ann> {
+    dom.attr(n, "style").map(style_anns).unwrap_or_default()
+}
+
+pub fn no_colours(_: &Arena, _: usize) -> Vec<Ann> {
+    vec![]
+}
+
+fn element_anns(dom: &Arena, n: usize, colours: ColourFn) -> Vec<Ann> {
+    let mut v = colours(dom, n);
     match dom.name(n) {
         Some("em" | "i" | "ins" | "dt") => v.push(Ann::Emphasis),
         Some("strong") => v.push(Ann::Strong),
@@ -75,7 +81,7 @@ fn element_anns(dom: &Arena, n: usize, css: bool) -> Vec<Ann> {
 }
 
 /// label -> (expected annotation vector without Default/Preformat, inside <pre>?)
-pub fn expected_vectors(dom: &Arena, css: bool) -> HashMap<usize, (Vec<Ann>, bool)> {
+pub fn expected_vectors(dom: &Arena, colours: ColourFn) -> HashMap<usize, (Vec<Ann>, bool)> {
     let mut m = HashMap::new();
     for (node, text) in dom.text_items() {
         let mut labels: Vec<usize> = text.chars().filter(|c| is_visible(*c)).filter_map(label_of).collect();
@@ -89,7 +95,7 @@ pub fn expected_vectors(dom: &Arena, css: bool) -> HashMap<usize, (Vec<Ann>, boo
         let mut pre = false;
         for a in chain {
             if dom.is_elem(a) {
-                v.extend(element_anns(dom, a, css));
+                v.extend(element_anns(dom, a, colours));
                 if dom.name(a) == Some("pre") {
                     pre = true;
                 }
@@ -97,11 +103,7 @@ pub fn expected_vectors(dom: &Arena, css: bool) -> HashMap<usize, (Vec<Ann>, boo
         }
         if dom.name(node) == Some("img") {
             // the alt text: the image's own colours, then Image(src)
-            if css {
-                if let Some(st) = dom.attr(node, "style") {
-                    v.extend(style_anns(st));
-                }
-            }
+            v.extend(colours(dom, node));
             v.push(Ann::Image(dom.attr(node, "src").unwrap_or("").to_string()));
         }
         for l in labels {
@@ -127,8 +129,18 @@ fn strip(tags: &[Ann]) -> (Vec<Ann>, Vec<bool>) {
 pub fn check_html(html: &str, width: usize, css: bool, st: &mut Stats, key: &dyn Fn(&mut Stats, bool)) -> Result<(), String> {
     let mut cfg = CfgSpec::rich();
     cfg.doc_css = css;
+    let colours: ColourFn = if css { &inline_style_colours } else { &no_colours };
+    check_annotations(html, &cfg, width, colours, st, key)
+}
+
+/// Compare the annotation vector of every output piece with the vector expected from the oracle
+/// DOM, where `colours` says which Colour/BgColour annotations an element contributes.
+pub fn check_annotations(html: &str, cfg: &CfgSpec, width: usize, colours: ColourFn, st: &mut Stats, key: &dyn Fn(&mut Stats, bool)) -> Result<(), String> {
+    let cfg = cfg.clone();
+    let css = true;
+    let _ = css;
     let dom = odom::parse(html.as_bytes());
-    let exp = expected_vectors(&dom, css);
+    let exp = expected_vectors(&dom, colours);
     let r = render_lines(&cfg, html.as_bytes(), width);
     if let Some(b) = r.bad() {
         return Err(format!("{}\nhtml={}", b, short(html, 800)));
@@ -159,7 +171,7 @@ pub fn check_html(html: &str, width: usize, css: bool, st: &mut Stats, key: &dyn
         let mut v = vec![];
         for a in chain {
             if dom.is_elem(a) {
-                v.extend(element_anns(&dom, a, css));
+                v.extend(element_anns(&dom, a, colours));
                 prefixes.insert(format!("{:?}", v));
             }
         }
